@@ -16,7 +16,7 @@ import shutil
 import tempfile
 from pathlib import Path
 
-from lib.hx import harness, pick, pickb, done, tier, PART, note, known
+from lib.hx import harness, pick, pickb, done, tier, PART, note, known, sample
 
 PROPERTY = "C01"
 LEVEL = "exploration"
@@ -66,6 +66,10 @@ MENU = [
     ("lambda_defaults", b"f = lambda a=(lambda: 1), *b, c={1: [2, (3,)]}, **d: a\ndef g(x=f(), y=[i for i in range(3) if i], z=not 1 < 2 < 3): pass\nCONST: 'Final[int]' = 1 if g else 2\n"),
     ("regex_consts", b"import re\nA = re.compile('(?L)\\\\w+')\nB = re.compile('[.*')\nC = re.compile(b'(?u)x')\nD = re.compile('a{99999999999}')\nE = re.compile('(?P<n>x)(?P=n)(?#c)', re.I | 64)\ndef f(p=re.compile('(?au)x'), q=re.compile(r'\\1')): pass\n"),
     ("empty", b""),
+    # modules that reach their siblings through imports, so that a sibling is first processed from inside another module
+    ("import_m1", b"'''Imports the next module.'''\nfrom pkg.m1 import helper\nfrom . import m1 as alias\nimport pkg.m1\nclass Sub(alias.Base, helper): pass\n"),
+    ("import_star_m1_m2", b"from .m1 import *\nfrom .m2 import *\nfrom .m1 import (a as b, c)\n__all__ = ['b']\n"),
+    ("import_m0_cycle", b"from pkg.m0 import f, K\nfrom pkg import m0, m1, m2\nclass L(K): pass\n"),
 ]
 NM = len(MENU)
 UNPARSABLE = {"syntax_error", "null_byte", "bad_indent", "not_utf8", "bad_coding"}
@@ -100,6 +104,7 @@ def check_run(indices, fmt):
                 s.violations += 1
         s.msg = msg
         ctx = dict(modules=[k for _n, k in names], docformat=fmt)
+        sample(modules=[k for _n, k in names], docformat=fmt, files={nm + ".py": MENU[i][1].decode("latin-1") for (nm, _k), i in zip(names, indices)})
         try:
             s.addPackage(Path(pkg), None)
             s.process()
@@ -166,8 +171,8 @@ NMOD = tier(2, 3)
     parts=lambda: list(range(NM)), timeout=(300, 3000), cls="E", tracing="concrete-after-choice", twin="first", unblock=UNBLOCK,
     code=["pydoctor.model.System.addPackage/analyzeModule/process/processModule", "pydoctor.astbuilder.ASTBuilder.parseFile/processModuleAST", "pydoctor.astbuilder.parseAll/parseDocformat/ModuleVistor.*",
           "pydoctor.model.defaultPostProcess", "pydoctor.templatewriter.writer.TemplateWriter", "pydoctor.sphinx.SphinxInventoryWriter", "pydoctor.driver.main (exit status)"],
-    bounds={"quick": "packages of 2 modules drawn from a menu of 31 module files (5 that do not parse - syntax error, NUL byte, inconsistent indentation, undecodable bytes, unknown coding -, un-evaluable __all__ / __docformat__, every special-cased statement form, duplicates, bad fields, empty file), docformat chosen by the pair (900 packages)",
-            "thorough": "3 modules (27 000 packages) x docformat chosen by the triple"},
+    bounds={"quick": "packages of 2 modules drawn from a menu of 34 module files (5 that do not parse - syntax error, NUL byte, inconsistent indentation, undecodable bytes, unknown coding -, un-evaluable __all__ / __docformat__, modules importing their siblings in either direction, every special-cased statement form, duplicates, bad fields, empty file), docformat chosen by the pair (1 156 packages)",
+            "thorough": "3 modules (39 304 packages) x docformat chosen by the triple"},
     outside="everything not assembled from the menu; hangs; the command-line front end (options parsing, intersphinx download)",
 )
 def h_run_completes(i1: int, i2: int) -> bool:
